@@ -1445,6 +1445,7 @@ def run(ctx):
     pool = make_pool(E, ctx.rng('pool'))
     B, T = Batch(), Tally()
     witnesses(ctx, E)
+    reuse_oracle(ctx, E)
     for name, fn, nq, nt in COMPONENTS:
         run_component(ctx, E, pool, B, T, name, fn, nq if ctx.quick() else nt, drivers_ok, spec_ok)
     ctx.assumptions += [
@@ -1461,6 +1462,58 @@ def run(ctx):
                                              'flows paid after the value date)',
                                              'hand-written model FinVerif/Model/C06.lean, tied to the code by the correspondence'],
                     RULE)
+
+
+
+def reuse_oracle(ctx, E):
+    """One leg / swap object valued against different curve sets must give what a fresh object gives:
+    the value depends on the arguments of the call only (C06 'floating rates projected from the index
+    curve'; also C18).  Curves of different day-count bases, different valuation dates."""
+    rng = ctx.rng('reuse')
+    DT, FT, ST = E.DayCountTypes, E.FrequencyTypes, E.SwapTypes
+    n = 40 if ctx.quick() else 600
+    cnt = 0
+    for i in range(n):
+        eff = E.Date(rng.randint(1, 28), rng.randint(1, 12), rng.randint(2015, 2035))
+        mat = eff.add_months(rng.choice([12, 24, 60, 120]))
+        bases = rng.sample([DT.ACT_360, DT.ACT_365F, DT.THIRTY_E_360, DT.ACT_ACT_ISDA], 2)
+        vds = [eff.add_days(-rng.choice([0, 5, 40])), eff.add_days(rng.choice([0, 10, 100]))]
+        curves = [(vds[j], E.DiscountCurveFlat(vds[j], rng.uniform(0.0, 0.06), rng.choice([FT.CONTINUOUS, FT.ANNUAL]), bases[j]),
+                   E.DiscountCurveFlat(vds[j], rng.uniform(0.0, 0.06), rng.choice([FT.CONTINUOUS, FT.SEMI_ANNUAL]), bases[1 - j]))
+                  for j in range(2)]
+        fq = rng.choice([FT.QUARTERLY, FT.SEMI_ANNUAL])
+        lt = rng.choice([ST.PAY, ST.RECEIVE])
+
+        def mk_float():
+            return E.SwapFloatLeg(eff, mat, lt, rng_spread, fq, DT.ACT_360)
+
+        def mk_fixed():
+            return E.SwapFixedLeg(eff, mat, lt, 0.03, fq, DT.THIRTY_E_360)
+
+        def mk_swap():
+            return E.IborSwap(eff, mat, lt, 0.03, fq, DT.THIRTY_E_360)
+        rng_spread = rng.choice([0.0, 0.001])
+        for name, mk, val in (
+                ('SwapFloatLeg', mk_float, lambda o, c: o.value(c[0], c[1], c[2])),
+                ('SwapFixedLeg', mk_fixed, lambda o, c: o.value(c[0], c[1])),
+                ('IborSwap', mk_swap, lambda o, c: o.value(c[0], c[1], c[2]))):
+            try:
+                shared = mk()
+                a1 = float(val(shared, curves[0]))
+                b_shared = float(val(shared, curves[1]))
+                b_fresh = float(val(mk(), curves[1]))
+                a_again = float(val(shared, curves[0]))
+            except E.FinError:
+                continue
+            cnt += 1
+            sc = max(abs(b_fresh), abs(a1), 1.0)
+            if abs(b_shared - b_fresh) > 1e-12 * sc or abs(a_again - a1) > 1e-12 * sc:
+                ctx.violation(f'{name}: value on a re-used object differs from the value on a fresh object (depends on the earlier call)',
+                              {'effective': ser(eff), 'maturity': ser(mat), 'leg_type': lt.name, 'freq': fq.name,
+                               'curve_sets': [[ser(c[0]), c[1].dc_type.name, c[2].dc_type.name] for c in curves],
+                               'first': a1, 'second_on_shared_object': b_shared, 'second_on_fresh_object': b_fresh,
+                               'first_again': a_again}, clause='reuse')
+    ctx.count('reuse (same object, different curve sets / valuation dates)', cnt)
 
 
 def replay(ctx, path):
